@@ -7,6 +7,7 @@ import (
 	"go/types"
 	"regexp"
 	"sort"
+	"strconv"
 	"strings"
 
 	"golang.org/x/tools/go/ssa"
@@ -560,6 +561,12 @@ func (r *Renderer) render(v ssa.Value) string {
 		}
 		return r.cmp(x.Op, x.X, x.Y)
 	case *ssa.Call:
+		if s, ok := r.pbGetter(x); ok {
+			return s
+		}
+		if s, ok := r.sliceSearch(x); ok {
+			return s
+		}
 		if s, ok := r.inlineHelper(x, -1); ok {
 			return s
 		}
@@ -1007,7 +1014,65 @@ func (r *Renderer) cmp(op token.Token, x, y ssa.Value) string {
 	case op == token.LSS && isConstIntVal(x, 0) && nonNeg(y), op == token.LEQ && isConstIntVal(x, 1) && nonNeg(y):
 		return r.binop(token.NEQ, "0", r.E(y))
 	}
-	return r.binop(op, r.E(x), r.E(y))
+	// a single bit compared with 1 is the bit compared with 0 the other way: (1 & v) == 1 ≡ (1 & v) != 0
+	if (op == token.EQL || op == token.NEQ) && (isConstIntVal(y, 1) && isLowBit(x) || isConstIntVal(x, 1) && isLowBit(y)) {
+		bit := x
+		if isConstIntVal(x, 1) {
+			bit = y
+		}
+		nop := token.NEQ
+		if op == token.NEQ {
+			nop = token.EQL
+		}
+		return r.binop(nop, r.E(bit), "0")
+	}
+	sx, sy := r.E(x), r.E(y)
+	// c1 + A OP c2 + B on Go ints (lengths, counts: no wrap-around in reach): the smaller constant is cancelled
+	if isGoInt(x.Type()) && isGoInt(y.Type()) {
+		if cx, rx, ok1 := splitConstAddend(sx); ok1 {
+			if cy, ry, ok2 := splitConstAddend(sy); ok2 {
+				m := cx
+				if cy < m {
+					m = cy
+				}
+				sx, sy = withAddend(cx-m, rx), withAddend(cy-m, ry)
+			}
+		}
+	}
+	return r.binop(op, sx, sy)
+}
+
+// isLowBit: v is (w & 1).
+func isLowBit(v ssa.Value) bool {
+	b, ok := v.(*ssa.BinOp)
+	return ok && b.Op == token.AND && (isConstIntVal(b.X, 1) || isConstIntVal(b.Y, 1))
+}
+
+func isGoInt(t types.Type) bool {
+	b, ok := t.Underlying().(*types.Basic)
+	return ok && b.Kind() == types.Int
+}
+
+var constAddendRe = regexp.MustCompile(`^\((-?\d+) \+ (.*)\)$`)
+
+// splitConstAddend: "(c + rest)" with an integer constant c and a balanced rest.
+func splitConstAddend(s string) (int64, string, bool) {
+	m := constAddendRe.FindStringSubmatch(s)
+	if m == nil || !balancedTop(m[2]) {
+		return 0, "", false
+	}
+	c, err := strconv.ParseInt(m[1], 10, 64)
+	if err != nil {
+		return 0, "", false
+	}
+	return c, m[2], true
+}
+
+func withAddend(c int64, rest string) string {
+	if c == 0 {
+		return rest
+	}
+	return "(" + strconv.FormatInt(c, 10) + " + " + rest + ")"
 }
 
 func mirror(op token.Token) token.Token {
@@ -1046,6 +1111,85 @@ var argTokRe = regexp.MustCompile(`\$(\d+)`)
 
 var inlineActive = map[*ssa.Function]bool{}
 
+// sliceSearch: the standard-library searches over a slice are rendered as quantifier forms that do
+// not depend on how the predicate is packaged (closure, named function, value comparison):
+//
+//	slices.ContainsFunc(xs, f) → any(xs, BODY)    slices.Contains(xs, v) → any(xs, (· == v))
+//	slices.IndexFunc(xs, f)    → index(xs, BODY)  slices.Index(xs, v)    → index(xs, (· == v))
+//
+// BODY is the predicate's returned expression with its parameter written `·` and captured
+// variables written as the enclosing function sees them.
+func (r *Renderer) sliceSearch(call *ssa.Call) (string, bool) {
+	f := calleeFunc(&call.Call)
+	if f == nil || f.Pkg() == nil || f.Pkg().Path() != "slices" || len(call.Call.Args) != 2 {
+		return "", false
+	}
+	q := ""
+	switch f.Name() {
+	case "ContainsFunc", "Contains":
+		q = "any"
+	case "IndexFunc", "Index":
+		q = "index"
+	default:
+		return "", false
+	}
+	xs := r.E(call.Call.Args[0])
+	if f.Name() == "Contains" || f.Name() == "Index" {
+		return q + "(" + xs + ", " + r.binop(token.EQL, "·", r.E(call.Call.Args[1])) + ")", true
+	}
+	var pf *ssa.Function
+	switch p := call.Call.Args[1].(type) {
+	case *ssa.MakeClosure:
+		pf, _ = p.Fn.(*ssa.Function)
+	case *ssa.Function:
+		pf = p
+	}
+	if pf == nil || pf.Blocks == nil || len(pf.Params) != 1 || r.inlineDepth >= 2 {
+		return "", false
+	}
+	pr := r.p.RBound(pf, []string{"·"}, r.inlineDepth+1)
+	var alts []string
+	for _, b := range pf.Blocks {
+		if ret, ok := b.Instrs[len(b.Instrs)-1].(*ssa.Return); ok && len(ret.Results) == 1 {
+			alts = append(alts, strings.ReplaceAll(pr.E(ret.Results[0]), "^", ""))
+		}
+	}
+	alts = dedupe(alts)
+	if len(alts) != 1 {
+		return "", false
+	}
+	return q + "(" + xs + ", " + alts[0] + ")", true
+}
+
+// pbGetter: a generated protobuf getter `m.GetF()` of a repository message whose struct has a
+// field F of the result type is the field read `m.F` (the getter only adds a nil-receiver
+// default): both spellings render the same.
+func (r *Renderer) pbGetter(call *ssa.Call) (string, bool) {
+	g := call.Call.StaticCallee()
+	if g == nil || g.Signature.Recv() == nil || len(call.Call.Args) != 1 || !strings.HasPrefix(g.Name(), "Get") || len(g.Name()) < 4 {
+		return "", false
+	}
+	if !isProdPkgFn(g) || !r.p.isGenerated(g) || g.Signature.Results().Len() != 1 {
+		return "", false
+	}
+	pt, ok := g.Signature.Recv().Type().(*types.Pointer)
+	if !ok {
+		return "", false
+	}
+	st, ok := pt.Elem().Underlying().(*types.Struct)
+	if !ok {
+		return "", false
+	}
+	want := g.Name()[3:]
+	for i := 0; i < st.NumFields(); i++ {
+		f := st.Field(i)
+		if f.Name() == want && types.Identical(f.Type(), g.Signature.Results().At(0).Type()) {
+			return r.E(call.Call.Args[0]) + "." + want, true
+		}
+	}
+	return "", false
+}
+
 // inlineHelper: the value of result `idx` (-1: the single result) of a call to an unexported
 // repository helper is rendered as the helper's returned expression(s) with the parameters
 // replaced by the arguments: extracting a computation into a private function does not change
@@ -1059,7 +1203,7 @@ func (r *Renderer) inlineHelper(call *ssa.Call, idx int) (string, bool) {
 		return "", false
 	}
 	o, ok := g.Object().(*types.Func)
-	if !ok || o.Exported() {
+	if !ok || (o.Exported() && knownAPI[FuncKey(g)]) || r.p.isGenerated(g) {
 		return "", false
 	}
 	res := g.Signature.Results()
@@ -1073,8 +1217,9 @@ func (r *Renderer) inlineHelper(call *ssa.Call, idx int) (string, bool) {
 	if k >= res.Len() || types.Identical(res.At(k).Type(), errorType) {
 		return "", false
 	}
-	// helpers that write state are calls, not values
-	if r.p.mayWrite()[g] {
+	// helpers that write state are calls, not values — except for a result extracted from a
+	// (value, error) tuple: the call itself still shows as a call, the extracted value is what the helper returns
+	if r.p.mayWrite()[g] && idx < 0 {
 		return "", false
 	}
 	if inlineActive[g] {
